@@ -44,7 +44,8 @@ fn make_filter(rng: &mut Rng, kind: usize) -> (Filter, String) {
             (Filter::NotAppID(v), v.to_string())
         }
         8 => {
-            let n = rng.usize(1, 3);
+            // an empty tag list restricts nothing: as a later insertion it still replaces an earlier list
+            let n = if rng.chance(1, 5) { 0 } else { rng.usize(1, 3) };
             let tags: Vec<String> = (0 .. n).map(|_| rng.text1(6, &['\\', '\u{0}', ','])).collect();
             (Filter::HasTags(tags.clone()), tags.join(","))
         }
@@ -140,6 +141,7 @@ impl C16 {
         let mut sf = SearchFilters::new();
         let mut model: [Group; 3] = [Group::new(), Group::new(), Group::new()];
         let mut desc = Vec::new();
+        let mut empty_tags_in_special_group = false;
         for (kind, group) in seq {
             let (f, wire) = make_filter(&mut cx.rng, *kind);
             desc.push(format!("{}({f:?})", ["insert", "insert_nand", "insert_nor"][*group]));
@@ -148,7 +150,23 @@ impl C16 {
                 1 => sf.insert_nand(f),
                 _ => sf.insert_nor(f),
             };
-            model[*group].insert(key_of(*kind).to_string(), wire);
+            if *kind == 8 && wire.is_empty() {
+                // HasTags(vec![]) writes nothing. In the plain group that is simply "no tag filter" (and it has replaced
+                // whatever list was there); inside NAND/NOR the announced size still counts it: observe-only
+                if *group == 0 {
+                    model[0].remove(key_of(8));
+                    cx.count("empty-tag-list-in-the-plain-group");
+                } else {
+                    empty_tags_in_special_group = true;
+                }
+            } else {
+                model[*group].insert(key_of(*kind).to_string(), wire);
+            }
+        }
+        if empty_tags_in_special_group {
+            cx.eval();
+            cx.observe("HasTags(vec![]) inside a NAND/NOR group");
+            return;
         }
         let (region, rbyte) = REGIONS[cx.rng.below(9) as usize];
         let seed_ip = format!("{}.{}.{}.{}", cx.rng.u8(), cx.rng.u8(), cx.rng.u8(), cx.rng.u8());
@@ -471,7 +489,7 @@ impl Check for C16 {
     fn rule(&self) -> String {
         "filters: all insertion sequences of length <= 2 (quick; 2 970) / <= 3 (thorough; 160 434) over 18 filter kinds x {insert, insert_nand, insert_nor} with sampled values and regions, plus sampled longer sequences (among them groups of 8-18 different kinds); the request recorded by the transport is parsed by a reference parser of the Master Server Query Protocol grammar and (region, seed, plain, NAND, NOR groups) must equal a reference model of the builder (later insert of a kind replaces the earlier). paging: histories of 1-6 pages x 1-230 entries ending by a terminator as last entry / only entry / an empty page / never: returned list = concatenation without the terminator, request k+1 seeded with the last address of page k, nothing requested after the terminator, silence before a terminator is a receive error; 2-3 complete queries on one service instance each start again from the 0.0.0.0:0 seed. non-trivial = parse + comparison passed; distinct by request bytes".into()
     }
-    fn assumptions(&self) -> Vec<String> { vec!["filter keys and grammar as in DESIGN.md Appendix A.9".into(), "domain: string values without backslash/NUL, tags without comma; HasTags(vec![]) and a terminator in the middle of a page are observe-only".into()] }
+    fn assumptions(&self) -> Vec<String> { vec!["filter keys and grammar as in DESIGN.md Appendix A.9".into(), "domain: string values without backslash/NUL, tags without comma; HasTags(vec![]) inside a NAND/NOR group and a terminator in the middle of a page are observe-only".into()] }
     fn total_cases(&self, tier: Tier) -> u64 { self.n_seq(tier) + self.n_random(tier) }
     fn exhaustive(&self, _tier: Tier) -> Option<bool> { Some(true) }
     fn case_label(&self, tier: Tier, idx: u64) -> String { if idx < self.n_seq(tier) { "filter-sequences".into() } else { "random".into() } }
